@@ -14,7 +14,6 @@ Interpretations (documented, to avoid false alarms):
  * 'split': piece geometry is judged only for faces that really cross the antimeridian (unwrapped width < 180, |lat| < 85).
 """
 import copy
-import itertools
 import random
 
 import numpy as np
